@@ -195,6 +195,34 @@ def apply_op(tables, cur, o):
     if k == "transposed":
         r = cur.transposed(o["new"], select_as_header=o["sah"])
         return r, obs_table(r)
+    if k in ("count_unique", "distinct_arg"):
+        a = o["arg"]
+        form = a["form"]
+        arg = None if form == "none" else tuple(a["value"]) if form == "tuple" else a["value"]
+
+        def canon_keys(keys):
+            ks = list(keys)
+            flag = None if not ks else not any(isinstance(x, tuple) for x in ks)
+            return flag, ks
+
+        def key_list(x):
+            return [cv(e) for e in x] if isinstance(x, tuple) else [cv(x)]
+
+        def distinct_obs():
+            try:
+                flag, ks = canon_keys(cur.distinct_values(arg))
+                return [flag, sorted((key_list(x) for x in ks), key=repr)]
+            except Exception as e:  # noqa: BLE001
+                return {"exc": exc_code(e), "type": type(e).__name__, "msg": str(e)[:80]}
+
+        if k == "distinct_arg":
+            flag, ks = canon_keys(cur.distinct_values(arg))
+            return cur, [flag, sorted((key_list(x) for x in ks), key=repr)]
+        cnt = cur.count_unique() if form == "none" and a.get("omit") else cur.count_unique(arg)
+        items = list(cnt.items())
+        flag, _ = canon_keys([kk for kk, _ in items])
+        entries = sorted(([key_list(kk), int(n)] for kk, n in items), key=repr)
+        return cur, [flag, entries, distinct_obs() if form != "none" else None]
     if k == "distinct":
         cols = o["columns"]
         s = cur.distinct_values(cols)
@@ -262,6 +290,9 @@ def obs_itable(t):
     return [obs_table(t)[:4], ix]
 
 
+case_tables_json = [None]
+
+
 def apply_iop(tables, cur, o):
     k = o["op"]
     if k == "lookup":
@@ -270,17 +301,24 @@ def apply_iop(tables, cur, o):
     if k == "row":
         r = cur[from_json_cell(o["label"])]
         return cur, obs_itable(r)
+    if k == "inner_join_index":
+        ob = dict(case_tables_json[0][o["other"]], index_name=o["other_index"])
+        other = build(ob)
+        other.index_name
+        r = cur.inner_join(other, col_prefix=o["prefix"])
+        return r, obs_itable(r)
     if k == "get_columns_ix":
         r = cur.get_columns(o["columns"], with_index=o["with_index"])
         return r, obs_itable(r)
     r, obs = apply_op(tables, cur, o)
-    if k in ("count", "distinct"):
+    if k in ("count", "distinct", "count_unique", "distinct_arg"):
         return r, (obs[0] if k == "count" and isinstance(obs, list) else obs)
     return r, obs_itable(r)
 
 
 def run_iops(case):
     out = []
+    case_tables_json[0] = case["tables"]
     try:
         tables = [build(tb) for tb in case["tables"]]
         cur = tables[0]
